@@ -98,7 +98,7 @@ Definition get_se (p : profile) (r : reader) : outcome (Z * reader) :=
 (* bits are accumulated reversed; wpos counts them *)
 Record writer := mkW { wrev : list bool; wpos : N }.
 Definition wempty : writer := mkW [] 0.
-Definition wbits (w : writer) : list bool := rev (wrev w).
+Definition wbits (w : writer) : list bool := frev (wrev w).
 
 Definition wput (w : writer) (bs : list bool) : writer :=
   mkW (rev_append bs (wrev w)) (wpos w + N.of_nat (length bs)).
@@ -178,7 +178,7 @@ Definition wbytes (w : writer) : list N := bytes_of_bits (wbits w).
 (* ---------------- lemmas ---------------- *)
 
 Lemma wbits_wput w bs : wbits (wput w bs) = wbits w ++ bs.
-Proof. unfold wbits, wput. cbn [wrev]. rewrite rev_append_rev, rev_app_distr, rev_involutive.
+Proof. unfold wbits, wput. cbn [wrev]. rewrite !frev_rev. rewrite rev_append_rev, rev_app_distr, rev_involutive.
   reflexivity. Qed.
 
 Lemma wpos_wput w bs : wpos (wput w bs) = wpos w + N.of_nat (length bs).
